@@ -49,9 +49,11 @@ func runC12(r *vf.Run) {
 		if len(cols) == 0 {
 			return
 		}
-		dir := filepath.Join(r.Scratch, id)
+		// (round 8) directory and file names with characters that mean something in a URL but not in a path ('+', ',',
+		// '=', '@', '~', ';' -- no '%', '?' or '#', which the DSN syntax itself claims)
+		dir := filepath.Join(r.Scratch, id+"+d,1=@~")
 		mustMkdir(dir)
-		path := filepath.Join(dir, "ds.updog")
+		path := filepath.Join(dir, "ds+v1,x=y;z.updog")
 		if err := ix.Build(ix.Writers[rng.Intn(3)], path, ds.Rows); err != nil {
 			r.Violation(id, "build", err.Error())
 			return
